@@ -186,6 +186,15 @@ func (h *H) progCases() {
 		c.Tight = true
 		h.chainCase(c)
 	}
+	// JBIG2: more pixel work than workLimit(rawLen) allows must be refused, not done
+	if !h.aborted && e.Thorough {
+		c := h.one("JBIG2Decode", parm{Kind: "null"}, jbig2ManyRegions(200, 1, 1<<20, 38, 8, 8), "jbig2: 200 Mi pixels of region work for 6 KB")
+		c.Live = true // one bitmap per region is allocated and freed: judge what is held, not the cumulative total
+		o, ok := h.triple(c, false)
+		if ok && o.Class == "ok" {
+			h.fail("work-over-limit", "200 Mi pixel operations were carried out for a JBIG2 input of a few kilobytes", c, o)
+		}
+	}
 	// JBIG2 analogue: thousands of tiny regions composited onto a page close to the budget
 	if !h.aborted {
 		body := jbig2ManyRegions(e.Pick(3000, 20000), 1, 1, 38, 7000, 7000)
